@@ -16,10 +16,11 @@ sys.setrecursionlimit(10000)
 
 class Facts:
     def __init__(self, path):
-        with open(path) as f:
-            d = json.load(f)
-        self.raw = d
         import canon as _canon
+        with open(path) as f:
+            text = f.read()
+        d, self.path_renames = _canon.canon_paths(text)
+        self.raw = d
         self.field_renames = _canon.apply(d)  # private fields renamed back to the names the rules know
         self.crate = d["crate"]
         self.features = d["features"]
